@@ -1630,12 +1630,15 @@ impl Bgi {
             for c in str.chars() {
                 if let Some(glyph) = DEFAULT_BITFONT.get_glyph(c) {
                     for y in 0..8 {
-                        let mut pos = ((yf + y) * self.window.width + xf) as usize;
                         for x in 0..8 {
-                            if glyph.data[y as usize] & (1 << (7 - x)) != 0 {
-                                self.screen[pos] = self.color;
+                            let (px, py) = (xf + x, yf + y);
+                            // text that leaves the screen is clipped
+                            if px < 0 || py < 0 || px >= self.window.width || py >= self.window.height {
+                                continue;
                             }
-                            pos += 1;
+                            if glyph.data[y as usize] & (1 << (7 - x)) != 0 {
+                                self.screen[(py * self.window.width + px) as usize] = self.color;
+                            }
                         }
                     }
                     xf += 8;
